@@ -47,7 +47,11 @@ def main():
             assert r.returncode == 0, r.stderr
             rdir = os.path.join(tmp, "replays")
             rep = os.path.join(tmp, "report.json")
-            p = sh(["/venv/bin/python", AUDIT, "--repo", wt, "--seeds", seeds, "--replay-dir", rdir, "--report", rep])
+            scope = {"M1": "D=3,N=6|D=2,N=8", "M2": "^ic:|build_ic_set", "M3": "D=1,N=16|D=1,N=15", "M4": "D=1,N=16"}.get(name[:2])
+            cmd = ["/venv/bin/python", AUDIT, "--repo", wt, "--seeds", seeds, "--replay-dir", rdir, "--report", rep]
+            if scope and os.environ.get("SENS_FULL") != "1":
+                cmd += ["--ops-regex", scope]  # a slice of the catalogue around the planted change keeps a run at minutes
+            p = sh(cmd)
             lines = p.stdout.splitlines()
             changed = [l for l in lines if l.startswith("PREMISE-CHANGED")]
             legs = sorted({l.split()[1] for l in changed})
@@ -62,6 +66,7 @@ def main():
             if replays:
                 rj = json.load(open(replays[0]))
                 rec["minimised_plan"] = rj["plan"]
+                rec["scope"] = scope
                 rec["minimisation_attempts"] = rj["minimisation_attempts"]
                 on_mutant = sh(["/venv/bin/python", AUDIT, "--repo", wt, "--replay", replays[0]])
                 on_clean = sh(["/venv/bin/python", AUDIT, "--repo", REPO, "--replay", replays[0]])
